@@ -114,3 +114,24 @@ pub const LOC_SHIFT: u32 = 1_000_000;
 
 /// walrus defaults: names on, strict on, producers on
 pub const DEFAULT_CFG: u32 = 2 | 8 | 16;
+
+
+/// A parse that fails late, on the same thread, before the parse that matters: a generated module (chosen by a
+/// hash of the case's input, so that a replay does the same) whose last function body has lost its final `end`
+/// is handed to walrus and the error is ignored. Whatever a failed parse leaves behind - in thread-locals,
+/// statics, caches - must not reach the next module.
+pub fn failed_parse_first(input: &[u8], cfg_mask: u32) -> bool {
+    let spec = format!("gen:full:{}:{}", 77 + (wv_gen::rng::fnv64(input) % 5), wv_gen::rng::fnv64(input) % 97);
+    let mut bytes = match wv_gen::workload::materialize(&spec) {
+        Some(b) => b,
+        None => return false,
+    };
+    let base = wv_gen::dwarf::code_section_start(&bytes).unwrap_or(0);
+    let last_end = wv_gen::dwarf::layout(&bytes).last().map(|f| base + f.end as usize);
+    match last_end {
+        Some(e) if e >= 1 && bytes[e - 1] == 0x0b => bytes[e - 1] = 0x1a,
+        _ => return false,
+    }
+    let cfg = cfg_from_mask(cfg_mask);
+    matches!(guarded(|| cfg.parse(&bytes).is_err()), Ok(true))
+}
